@@ -54,6 +54,9 @@ type c09Line struct {
 	D  string   `json:"d"`
 	T  []string `json:"t"`            // token texts, T[0] = directive name (site/order lines: T[0] = source text)
 	NL []int    `json:"nl,omitempty"` // indices of tokens written at the start of a new physical line
+	// site cases: the line is not written in the block but in the snippet of this name, defined in front of the
+	// site and imported by it; consecutive lines of one snippet are ONE `import` line of the block
+	S string `json:"s,omitempty"`
 }
 type c09Block struct {
 	Keys  []string  `json:"keys"`
@@ -587,12 +590,14 @@ type c09Site struct {
 	addr string
 }
 
-func c09Start(body string) (*c09Site, error) {
+func c09Start(body string) (*c09Site, error) { return c09StartWith("", body) }
+
+func c09StartWith(prefix, body string) (*c09Site, error) {
 	c09Register()
 	c09Fixture()
 	os.Remove(filepath.Join(c09Fix, "access.log"))
 	c09HTTPCtx = nil
-	text := "127.0.0.1:0 {\n" + c09Subst(body) + "\n}\n"
+	text := c09Subst(prefix) + "127.0.0.1:0 {\n" + c09Subst(body) + "\n}\n"
 	inst, err := casket.Start(casket.CasketfileInput{Contents: []byte(text), Filepath: "Casketfile", ServerTypeName: "http"})
 	if err != nil {
 		return nil, err
@@ -735,12 +740,41 @@ func c09Digest(s string) string {
 
 func c09BodyOf(lines []c09Line, perm []int) string {
 	var sb strings.Builder
+	prev := -2
 	for _, i := range perm {
 		if i >= 0 && i < len(lines) {
-			sb.WriteString(lines[i].T[0] + "\n")
+			switch {
+			case lines[i].S == "":
+				sb.WriteString(lines[i].T[0] + "\n")
+			case i > 0 && lines[i-1].S == lines[i].S && prev == i-1:
+				// a further line of the snippet whose import is already written
+			default:
+				sb.WriteString("import " + lines[i].S + "\n")
+			}
+			prev = i
 		}
 	}
 	return sb.String()
+}
+
+// c09SnippetDefs: the snippet definitions of a site case, in the order of their first line
+func c09SnippetDefs(lines []c09Line) string {
+	var names []string
+	body := map[string]string{}
+	for _, l := range lines {
+		if l.S == "" {
+			continue
+		}
+		if _, ok := body[l.S]; !ok {
+			names = append(names, l.S)
+		}
+		body[l.S] += l.T[0] + "\n"
+	}
+	out := ""
+	for _, n := range names {
+		out += "(" + n + ") {\n" + body[n] + "}\n"
+	}
+	return out
 }
 
 type c09SiteObs struct {
@@ -753,8 +787,10 @@ type c09SiteObs struct {
 	stack []string
 }
 
-func c09Observe(body string) c09SiteObs {
-	st, err := c09Start(body)
+func c09Observe(body string) c09SiteObs { return c09ObserveWith("", body) }
+
+func c09ObserveWith(prefix, body string) c09SiteObs {
+	st, err := c09StartWith(prefix, body)
 	if err != nil {
 		return c09SiteObs{err: err.Error(), stack: []string{}}
 	}
@@ -779,8 +815,9 @@ func c09RunSite(in *c09In) Result {
 	for i := range id {
 		id[i] = i
 	}
-	a := c09Observe(c09BodyOf(in.Lines, id))
-	b := c09Observe(c09BodyOf(in.Lines, in.Perm))
+	defs := c09SnippetDefs(in.Lines)
+	a := c09ObserveWith(defs, c09BodyOf(in.Lines, id))
+	b := c09ObserveWith(defs, c09BodyOf(in.Lines, in.Perm))
 	vd := c09VD()
 	term := cApp("CSite", c09LinesTerm(in.Lines), cNatList(in.Perm), cBool(a.ok), cBool(b.ok), cList(a.resps), cList(b.resps),
 		c09Digest(a.log), c09Digest(b.log), c09SList(a.stack), c09SList(b.stack), c09SList(vd))
@@ -795,8 +832,8 @@ func c09RunSite(in *c09In) Result {
 		dirs[l.D] = true
 	}
 	return Result{Term: term, Obs: map[string]interface{}{"okA": a.ok, "okB": b.ok, "errA": a.err, "errB": b.err, "stackA": a.stack, "stackB": b.stack,
-		"differing": diff, "logA": a.log, "logB": b.log, "statuses": a.human},
-		Sig: "site", Nontrivial: a.ok && len(dirs) >= 3, Class: fmt.Sprintf("site:ok=%v:dirs=%d", a.ok, len(dirs)/3*3)}
+		"differing": diff, "logA": a.log, "logB": b.log, "statuses": a.human, "snippets": defs, "bodyA": c09BodyOf(in.Lines, id), "bodyB": c09BodyOf(in.Lines, in.Perm)},
+		Sig: c09SiteSig(defs), Nontrivial: a.ok && len(dirs) >= 3, Class: fmt.Sprintf("site:ok=%v:dirs=%d%s", a.ok, len(dirs)/3*3, c09ImpClass(strings.Count(defs, "(")))}
 }
 
 // ---- behavioural order probes
@@ -1246,9 +1283,29 @@ func c09RunText(in *c09In) Result {
 		}
 	}
 	tA, tB := build(in.TMain.Lines), build(permuted)
-	n := len(in.TPre) + 1 + len(in.TPost)
-	oA, hA, eA := c09TextObserve(tA, n, len(in.TPre))
-	oB, hB, eB := c09TextObserve(tB, n, len(in.TPre))
+	// a block in front whose only key is written (name) defines a snippet: it is no server block of the result
+	isSnip := func(b c09ABlock) bool {
+		return len(b.Keys) == 0 && strings.HasPrefix(b.Key.T, "(") && strings.HasSuffix(b.Key.T, ")")
+	}
+	n, idx, nimp := 1, 0, 0
+	for _, b := range in.TPre {
+		if !isSnip(b) {
+			n++
+			idx++
+		}
+	}
+	for _, b := range in.TPost {
+		if !isSnip(b) {
+			n++
+		}
+	}
+	for _, l := range in.TMain.Lines {
+		if l.H.T == "import" {
+			nimp++
+		}
+	}
+	oA, hA, eA := c09TextObserve(tA, n, idx)
+	oB, hB, eB := c09TextObserve(tB, n, idx)
 	var env []string
 	for _, kv := range c09Env {
 		env = append(env, cPair(cStr(kv[0]), cStr(kv[1])))
@@ -1266,7 +1323,26 @@ func c09RunText(in *c09In) Result {
 		}
 	}
 	return Result{Term: term, Obs: map[string]interface{}{"textA": tA, "textB": tB, "groupsA": hA, "groupsB": hB, "errA": eA, "errB": eB},
-		Sig: "text", Nontrivial: rep && len(names) >= 2, Class: fmt.Sprintf("text:lines=%d:repeated=%v", len(in.TMain.Lines), rep)}
+		Sig: c09TextSig(nimp), Nontrivial: (rep || nimp > 0) && len(names) >= 2, Class: fmt.Sprintf("text:lines=%d:repeated=%v%s", len(in.TMain.Lines), rep, c09ImpClass(nimp))}
+}
+
+func c09SiteSig(defs string) string {
+	if defs != "" {
+		return "site:snippet-imports"
+	}
+	return "site"
+}
+func c09TextSig(nimp int) string {
+	if nimp > 0 {
+		return "text:snippet-imports"
+	}
+	return "text"
+}
+func c09ImpClass(nimp int) string {
+	if nimp > 0 {
+		return fmt.Sprintf(":imports=%d", nimp)
+	}
+	return ""
 }
 
 func c09Run(in0 interface{}) Result {
@@ -1630,6 +1706,104 @@ func c09GenSite(r *Rand, out *[]interface{}) {
 	*out = append(*out, &c09In{Kind: "site", Lines: ls, Perm: perm})
 }
 
+// site cases whose block mixes its own lines with imports of snippets that contribute lines of the SAME directives:
+// the case holds the expanded lines (a snippet's lines stand where its import stands); the reordering permutes own
+// lines and import lines and keeps the expanded lines of every directive in their relative order; which import is
+// the first import statement of the input differs between the two orders whenever two imports change places
+func c09GenSiteImports(r *Rand, out *[]interface{}) {
+	var lines []c09Line
+	for _, p := range c09Pool {
+		w := p.Weight / 2
+		if p.D == "header" || p.D == "rewrite" || p.D == "mime" || p.D == "redir" {
+			w = p.Weight * 2
+		}
+		if p.Weight == 1 {
+			w = 0
+		}
+		if p.D == "root" || r.Chance(w) {
+			lines = append(lines, c09Line{D: p.D, T: []string{p.Text}})
+		}
+	}
+	if len(lines) < 4 {
+		return
+	}
+	// arrange: lines of one directive stay in pool order
+	ds := make([]string, len(lines))
+	for i, l := range lines {
+		ds[i] = l.D
+	}
+	p0 := c09AdmissiblePerm(r, ds)
+	ls := make([]c09Line, len(lines))
+	for a, b := range p0 {
+		ls[a] = lines[b]
+	}
+	// one or two snippets: runs of one or two lines; preferably a line whose directive also has an own line above
+	nsn := r.Range(1, 2)
+	for k := 0; k < nsn; k++ {
+		var cand []int
+		for j := 1; j < len(ls); j++ {
+			if ls[j].S != "" {
+				continue
+			}
+			for i := 0; i < j; i++ {
+				if ls[i].D == ls[j].D && ls[i].S == "" {
+					cand = append(cand, j)
+					break
+				}
+			}
+		}
+		j := r.Intn(len(ls))
+		if len(cand) > 0 && r.Chance(75) {
+			j = cand[r.Intn(len(cand))]
+		}
+		if ls[j].S != "" {
+			continue
+		}
+		name := fmt.Sprintf("snip%d", k+1)
+		ls[j].S = name
+		if j+1 < len(ls) && ls[j+1].S == "" && r.Chance(40) {
+			ls[j+1].S = name
+		}
+	}
+	// units: own lines and snippet runs
+	var units [][]int
+	for i := 0; i < len(ls); i++ {
+		if ls[i].S != "" && i > 0 && ls[i-1].S == ls[i].S {
+			units[len(units)-1] = append(units[len(units)-1], i)
+		} else {
+			units = append(units, []int{i})
+		}
+	}
+	admissible := func(perm []int) bool {
+		last := map[string]int{}
+		for _, i := range perm {
+			if p, ok := last[ls[i].D]; ok && p > i {
+				return false
+			}
+			last[ls[i].D] = i
+		}
+		return true
+	}
+	var perm []int
+	for try := 0; try < 60; try++ {
+		up := r.Perm(len(units))
+		perm = perm[:0]
+		for _, u := range up {
+			perm = append(perm, units[u]...)
+		}
+		moved := false
+		for i, x := range perm {
+			if x != i {
+				moved = true
+			}
+		}
+		if moved && (admissible(perm) || try == 59) {
+			break
+		}
+	}
+	*out = append(*out, &c09In{Kind: "site", Lines: append([]c09Line(nil), ls...), Perm: append([]int(nil), perm...)})
+}
+
 var c09BadUnknown = []string{"rewrit /a /b", "gzipp", "basicauht /x u p", "heade / X-A 1", "prox /api BACKEND", "zzz", "Root FIX"}
 var c09BadSyntax = []string{"gzip {", "header / {\n X-A 1", "root FIX\n}\n}"}
 var c09BadSetup = []string{"gzip {\n level 99\n}", "basicauth /x", "status abc /x", "redir", "errors {\n 404\n}"}
@@ -1786,6 +1960,90 @@ func c09GenText(r *Rand, out *[]interface{}) {
 	*out = append(*out, in)
 }
 
+// text cases with snippets: blocks in front define one or two snippets whose lines are of the SAME directives as the
+// block's own lines; the block mixes own lines and `import <snippet>` lines (the same snippet possibly twice); a
+// server block in front sometimes imports a snippet itself, so that the block's imports are / are not the first
+// import statements of the input; the reordering permutes own lines and import lines and is admissible when the
+// expanded lines of every directive keep their sequence (the judge decides that)
+func c09GenTextImports(r *Rand, out *[]interface{}) {
+	pool := []string{"header", "root", "gzip", "{$C09D}", "x-y", "log"}
+	var names []string
+	for k := r.Range(1, 3); k > 0; k-- {
+		names = append(names, r.Pick(pool))
+	}
+	simple := func(n string) c09ALine {
+		if r.Chance(50) {
+			return c09GenALine(r, n)
+		}
+		return c09ALine{H: c09LT{n, false}, R: []c09LT{{"/", false}, {r.Pick([]string{"X-A", "X-B", "k=v", "1"}), true}}}
+	}
+	in := &c09In{Kind: "text"}
+	nsn := r.Range(1, 2)
+	var snames []string
+	for i := 0; i < nsn; i++ {
+		sn := fmt.Sprintf("s%d", i+1)
+		snames = append(snames, sn)
+		b := c09ABlock{Key: c09LT{"(" + sn + ")", false}}
+		for k := r.Range(1, 2); k > 0; k-- {
+			b.Lines = append(b.Lines, simple(r.Pick(names)))
+		}
+		in.TPre = append(in.TPre, b)
+	}
+	if r.Chance(30) { // a server block in front that imports: the block's imports are not the first of the input
+		in.TPre = append(in.TPre, c09ABlock{Key: c09LT{":80", false}, Lines: []c09ALine{simple("gzip"), {H: c09LT{"import", false}, R: []c09LT{{r.Pick(snames), true}}}}})
+	}
+	main := &c09ABlock{Key: c09LT{"a.example", false}}
+	imp := func(sn string) c09ALine { return c09ALine{H: c09LT{"import", false}, R: []c09LT{{sn, true}}} }
+	// at least one own line in front of an import, further lines of both kinds
+	main.Lines = append(main.Lines, simple(r.Pick(names)), imp(r.Pick(snames)))
+	for k := r.Range(0, 3); k > 0; k-- {
+		if r.Chance(40) {
+			main.Lines = append(main.Lines, imp(r.Pick(snames)))
+		} else {
+			main.Lines = append(main.Lines, simple(r.Pick(names)))
+		}
+	}
+	if r.Chance(50) {
+		p := r.Perm(len(main.Lines))
+		ls := make([]c09ALine, len(p))
+		for a, b := range p {
+			ls[a] = main.Lines[b]
+		}
+		main.Lines = ls
+	}
+	in.TMain = main
+	if r.Chance(30) {
+		in.TPost = []c09ABlock{{Key: c09LT{"z.example", false}, Lines: []c09ALine{simple("root")}}}
+	}
+	// candidate reorderings: move the import lines about while the own lines keep their order, rotate, or any
+	n := len(main.Lines)
+	switch r.Intn(3) {
+	case 0:
+		var own, imps []int
+		for i, l := range main.Lines {
+			if l.H.T == "import" {
+				imps = append(imps, i)
+			} else {
+				own = append(own, i)
+			}
+		}
+		perm := append([]int(nil), own...)
+		for _, i := range imps {
+			at := r.Intn(len(perm) + 1)
+			perm = append(perm[:at], append([]int{i}, perm[at:]...)...)
+		}
+		in.Perm = perm
+	case 1:
+		k := r.Range(1, n)
+		for i := 0; i < n; i++ {
+			in.Perm = append(in.Perm, (i+k)%n)
+		}
+	default:
+		in.Perm = r.Perm(n)
+	}
+	*out = append(*out, in)
+}
+
 func c09GenHist(r *Rand, out *[]interface{}) {
 	c09Register()
 	nd := r.Range(2, 8)
@@ -1848,6 +2106,9 @@ func c09Gen(r *Rand, tier string) []interface{} {
 	for i := 0; i < nSite; i++ {
 		c09GenSite(r, &out)
 	}
+	for i := 0; i < nSite/2; i++ {
+		c09GenSiteImports(r, &out)
+	}
 	for i := 0; i < nOrderRounds; i++ {
 		c09GenOrder(r, &out, false)
 	}
@@ -1860,6 +2121,9 @@ func c09Gen(r *Rand, tier string) []interface{} {
 	for i := 0; i < nText; i++ {
 		c09GenText(r, &out)
 	}
+	for i := 0; i < nText/2; i++ {
+		c09GenTextImports(r, &out)
+	}
 	out = append(out, &c09In{Kind: "dirs"})
 	return out
 }
@@ -1867,7 +2131,7 @@ func c09Gen(r *Rand, tier string) []interface{} {
 func init() {
 	register(&Property{
 		ID: "C09", Imports: "V.Lib V.Gen_C09 V.C09_Model", Judge: "judge", Shard: 150,
-		Rule: "parse: generated server blocks (1-8 lines over 1-5 directive names, brace blocks, quoted/multi-line tokens, comments) through casketfile.Parse in written, admissibly permuted and arbitrarily permuted line order + a malformed token stream; text: C10-printed configurations (every token quoted; 1-7 lines over 1-4 names incl. names written as environment references, sub-blocks to depth 3, multi-line / backslash-newline-continued / empty / env-valued tokens, optional blocks in front and behind, 1-2 keys) in two line orders (70% admissible) through casketfile.Parse — Dispenser view (text, NextLine, NextArg) of every group vs the C10 parser model on the model-printed text and vs C09 grouping of the AST; exec: casket.Start/ValidateAndExecuteDirectives on a probe server type with a per-case directive list (1-8 names), 1-3 blocks x 1-3 keys, failing setups/callbacks; hist: 2-6 loads (Start / validate-only / Instance.Restart) of the probe server type in one process over one shared directive slice, with unknown directives, syntax errors, failing setups and callbacks — outcome class, trace and the slice after every load vs the state-threaded model and vs the fresh-process oracle; site: real http sites from a pool of 50 directive lines (incl. quoted values continued with a trailing backslash-newline inside the quotes and multi-line quoted values, as the last token of their line and inside blocks) in two admissible line orders, 32-request battery + access log + compiled middleware stack (= documented sequence); order: 74 behavioural probes (22 hand-written + every pair the property names: 4 gates x 6 content handlers incl. the static file server and a live FastCGI responder, 4 wrappers x 6, 3 rewriters x internal, request_id x log) with lines in written, reversed and random order, optionally after a history of http loads; dirs: ValidDirectives, the registered http directive plugins and the compiled stack of a fixed 24-directive site after histories of 0-4 http loads (validate / start+stop / reload of a running site; valid, misspelt directive, syntax error, failing setup). non-trivial = parse: a repeated directive interleaved with another one or a parse error; text: a repeated directive and >= 2 names; exec: >= 2 calls; hist: >= 2 loads; site: starts and uses >= 3 directives; order: always; dirs: after >= 1 load",
+		Rule: "snippet imports: text cases and started sites whose block mixes own lines with `import <snippet>` lines, the snippets (defined in front) contributing lines of the SAME directives, a snippet possibly imported twice, the block's imports being / not being the first import statements of the input; judged on the expanded lines (a snippet's lines stand where its import stands), reorderings exchange own lines and imports; parse: generated server blocks (1-8 lines over 1-5 directive names, brace blocks, quoted/multi-line tokens, comments) through casketfile.Parse in written, admissibly permuted and arbitrarily permuted line order + a malformed token stream; text: C10-printed configurations (every token quoted; 1-7 lines over 1-4 names incl. names written as environment references, sub-blocks to depth 3, multi-line / backslash-newline-continued / empty / env-valued tokens, optional blocks in front and behind, 1-2 keys) in two line orders (70% admissible) through casketfile.Parse — Dispenser view (text, NextLine, NextArg) of every group vs the C10 parser model on the model-printed text and vs C09 grouping of the AST; exec: casket.Start/ValidateAndExecuteDirectives on a probe server type with a per-case directive list (1-8 names), 1-3 blocks x 1-3 keys, failing setups/callbacks; hist: 2-6 loads (Start / validate-only / Instance.Restart) of the probe server type in one process over one shared directive slice, with unknown directives, syntax errors, failing setups and callbacks — outcome class, trace and the slice after every load vs the state-threaded model and vs the fresh-process oracle; site: real http sites from a pool of 50 directive lines (incl. quoted values continued with a trailing backslash-newline inside the quotes and multi-line quoted values, as the last token of their line and inside blocks) in two admissible line orders, 32-request battery + access log + compiled middleware stack (= documented sequence); order: 74 behavioural probes (22 hand-written + every pair the property names: 4 gates x 6 content handlers incl. the static file server and a live FastCGI responder, 4 wrappers x 6, 3 rewriters x internal, request_id x log) with lines in written, reversed and random order, optionally after a history of http loads; dirs: ValidDirectives, the registered http directive plugins and the compiled stack of a fixed 24-directive site after histories of 0-4 http loads (validate / start+stop / reload of a running site; valid, misspelt directive, syntax error, failing setup). non-trivial = parse: a repeated directive interleaved with another one or a parse error; text: a repeated directive and >= 2 names; exec: >= 2 calls; hist: >= 2 loads; site: starts and uses >= 3 directives; order: always; dirs: after >= 1 load",
 		Gen:    c09Gen,
 		Decode: func(raw json.RawMessage) (interface{}, error) { in := &c09In{}; return in, json.Unmarshal(raw, in) },
 		Run:    c09Run,
